@@ -307,8 +307,18 @@ def roundtrip_schedule(ctx, inst, jobs, sched, rng, i):
         ctx.check([[(list(op.machines), op.duration) for op in job] for job in s2.instance.jobs] == [[(list(ms), dd) for ms, dd in job] for job in jobs]
                   and s2.instance.name == inst.name, "schedule_dict_roundtrip", lambda: f"op {i}: the instance inside the rebuilt schedule differs", via="instance")
     seqs = [[so.operation.job_id for so in ml] for ml in sched.schedule]
+    seqs0 = [list(s) for s in seqs]
     s3 = Schedule.from_job_sequences(inst, seqs)
     ctx.check(sched_tuples(s3) == want, "job_sequences_roundtrip", lambda: f"op {i}: from_job_sequences(seq(S)) gives {sched_tuples(s3)}, S = {want}")
+    # the stored record (the same list object, the same dictionary) rebuilt a second time
+    try:
+        s3b = Schedule.from_job_sequences(inst, seqs)
+        s2b = Schedule.from_dict(**d) if via == "dict" else None
+    except Exception as e:  # noqa: BLE001
+        ctx.fail("job_sequences_roundtrip", f"op {i}: rebuilding a second time from the same record raised {short_exc(e)}; the record was {seqs0} and is now {seqs}", second=True)
+    else:
+        ctx.check(sched_tuples(s3b) == want and (s2b is None or sched_tuples(s2b) == want), "job_sequences_roundtrip",
+                  lambda: f"op {i}: rebuilding a second time from the same record gives {sched_tuples(s3b)}, S = {want}; the record was {seqs0} and is now {seqs}", second=True)
     # "identical" as the user tests it: the rebuilt schedules compare equal to the original
     ctx.check((s2 == sched) is True and (s3 == sched) is True, "rebuilt_schedule_compares_equal", lambda: f"op {i}: from_dict(to_dict(S)) == S is {s2 == sched}, from_job_sequences(seq(S)) == S is {s3 == sched} although their contents are identical")
     ctx.probe("schedule_roundtrip")
@@ -337,11 +347,12 @@ def roundtrip_instance(ctx, inst, jobs, rng, i, flex, jim):
         jim.open = fake_open
         try:
             explicit = rng.random() < 0.3
-            i3 = JobShopInstance.from_taillard_file(fname, name="given" if explicit else None, **({} if sym == "#" else {"comment_symbol": sym}),
+            given = rng.choice(["given", "la01.v2", "a.b.c"])  # an explicit name is the caller's: kept as it is
+            i3 = JobShopInstance.from_taillard_file(fname, name=given if explicit else None, **({} if sym == "#" else {"comment_symbol": sym}),
                                                     **(inst.metadata if rng.random() < 0.5 else {}))
         finally:
             del jim.open
-        want_name = "given" if explicit else fname.split("/")[-1].split(".")[0]
+        want_name = given if explicit else fname.split("/")[-1].split(".")[0]
         got = [[(list(op.machines), op.duration) for op in job] for job in i3.jobs]
         ctx.check(got == [[(list(ms), dd) for ms, dd in job] for job in jobs], "taillard_roundtrip", lambda: f"op {i}: from_taillard_file of {text!r} gives {got}")
         ctx.check(i3.name == want_name, "taillard_roundtrip", lambda: f"op {i}: name {i3.name!r}, expected {want_name!r} for file {fname!r}")
